@@ -514,7 +514,100 @@ func realWiring(res *Result) {
 }
 
 // observeSilence: supporting evidence for C19's last sentence on rtuovertcp (scheduling tolerance).
+// observeSilenceVariants: the same measurement with (a) the reply delivered in two pieces — header
+// first, the rest 8 ms later — so that "end of the received frame" differs from "first bytes seen",
+// and (b) the caller pausing between calls for a little less than t3.5, so that less than one
+// character time of the inter-frame delay remains when the next call starts. The gap is measured
+// from the peer's last write of the reply to its read of the next request.
+func observeSilenceVariants(res *Result) {
+	type variant struct {
+		name  string
+		rate  uint
+		split bool
+		pause func(t1, t35 time.Duration) time.Duration
+	}
+	vs := []variant{
+		{"split-reply", 9600, true, nil}, {"split-reply", 19200, true, nil},
+		{"pause-inside-last-char", 1200, false, func(t1, t35 time.Duration) time.Duration { return t35 - t1/2 }},
+		{"pause-inside-last-char", 2400, false, func(t1, t35 time.Duration) time.Duration { return t35 - t1/2 }},
+		{"pause-inside-last-char", 4800, false, func(t1, t35 time.Duration) time.Duration { return t35 - t1/3 }},
+	}
+	for _, v := range vs {
+		ln, err := net.Listen("tcp", "127.0.0.1:0")
+		if err != nil {
+			return
+		}
+		t1, t35 := modbus.VerifSerialTimings(v.rate)
+		ch := make(chan []time.Duration, 1)
+		go func() {
+			c, err := ln.Accept()
+			if err != nil {
+				ch <- nil
+				return
+			}
+			defer c.Close()
+			var gaps []time.Duration
+			var lastReplyEnd time.Time
+			buf := make([]byte, 300)
+			for i := 0; i < 5; i++ {
+				c.SetReadDeadline(time.Now().Add(3 * time.Second))
+				n, err := c.Read(buf)
+				if err != nil {
+					break
+				}
+				now := time.Now()
+				if !lastReplyEnd.IsZero() {
+					gaps = append(gaps, now.Sub(lastReplyEnd))
+				}
+				w := parseWire(true, buf[:n])
+				f := rtuFrame(w.unit, w.fc, validReplyPayload(NewRng(1), w.fc, w.payload))
+				// a device on a real line cannot answer before the request has been transmitted: wait
+				// out the client's emulated transmission time, so that the client reads the reply
+				// when it arrives and the measured gap is the line silence
+				time.Sleep(time.Duration(n)*t1 + t35 + 2*time.Millisecond)
+				if v.split {
+					c.Write(f[:3])
+					time.Sleep(8 * time.Millisecond)
+					c.Write(f[3:])
+				} else {
+					c.Write(f)
+				}
+				lastReplyEnd = time.Now()
+			}
+			ch <- gaps
+		}()
+		mc, err := modbus.NewClient(&modbus.ClientConfiguration{URL: "rtuovertcp://" + ln.Addr().String(), Speed: v.rate, Timeout: 2 * time.Second, Logger: quietLog})
+		if err != nil || mc.Open() != nil {
+			ln.Close()
+			return
+		}
+		op := &Op{Name: "ReadRegisters", Addr: 1, Qty: 2}
+		for i := 0; i < 5; i++ {
+			op.Exec(mc)
+			if v.pause != nil {
+				time.Sleep(v.pause(t1, t35))
+			}
+		}
+		mc.Close()
+		gaps := <-ch
+		ln.Close()
+		minGap := time.Hour
+		for _, g := range gaps {
+			if g < minGap {
+				minGap = g
+			}
+		}
+		res.Note(fmt.Sprintf("observed silence (%s) at %d bps: gaps %v (t1 = %v, t3.5 = %v)", v.name, v.rate, gaps, t1, t35))
+		res.Eval(fmt.Sprintf("silence/%s/%d", v.name, v.rate), true, fmt.Sprintf("%s at %d bps: min gap %v, t3.5 %v", v.name, v.rate, minGap, t35))
+		if len(gaps) > 0 && minGap+300*time.Microsecond < t35 {
+			res.Add(Finding{Kind: "property", Check: "silence", Line: fmt.Sprintf("rtuovertcp %s at %d bps", v.name, v.rate), Impl: fmt.Sprint(minGap), Expect: ">= " + fmt.Sprint(t35),
+				Note: "a request started earlier than the inter-frame delay after the END of the previous reply"})
+		}
+	}
+}
+
 func observeSilence(tier string, res *Result) {
+	observeSilenceVariants(res)
 	for _, rate := range []uint{9600, 19200, 115200} {
 		ln, err := net.Listen("tcp", "127.0.0.1:0")
 		if err != nil {
